@@ -322,11 +322,20 @@ fn stimulus_bfs(depth: usize) -> (u64, u64, Bad) {
         ("sp-at-edge", vec![0xFB, 0xEF, 0x40, 0x14], Stacksize::_48, Programsize::Size(255), 60),
         ("pc-at-end", vec![0xFB, 0xEE, 0x13], Stacksize::_0, Programsize::Size(255), 70),
     ] {
-        let mut m = head_machine(&head, s, l);
-        for _ in 0..run {
-            m.raw_mut().trigger_clock_edge();
+        match mc::catch(|| {
+            let mut m = head_machine(&head, s, l);
+            for _ in 0..run {
+                m.raw_mut().trigger_clock_edge();
+            }
+            m
+        }) {
+            Ok(m) => starts.push((name.to_string(), m)),
+            Err(p) => {
+                let mut b = Bad::new();
+                note(&mut b, &p, format!("head bytes={} stack={:?} limit={:?} edges={}", mc::hex(&head), s, l, run), format!("building the start state '{}'", name));
+                return (0, 0, b);
+            }
         }
-        starts.push((name.to_string(), m));
     }
     let total = ev.len().pow(depth as u32);
     let res = mc::par_ranges(total * starts.len(), 2048, |rg| {
@@ -447,16 +456,20 @@ pub fn run() {
     ctx.set("distinct_outcomes", states);
     ctx.sample(format!("head bytes=f1,40 stack=_16 tail={}", mc::hex(&tail())));
     ctx.sample(format!("stimuli: {:?}", &stimuli()[..12]));
-    ctx.set("determinism_selftest", {
-        let a = head_machine(&[0xB4, 0x17], Stacksize::_16, Programsize::Size(255));
-        let mut x = a.clone();
-        let mut y = a.clone();
-        for _ in 0..100 {
-            x.raw_mut().trigger_clock_edge();
-            y.raw_mut().trigger_clock_edge();
-        }
-        x == y
-    });
+    ctx.set(
+        "determinism_selftest",
+        mc::catch(|| {
+            let a = head_machine(&[0xB4, 0x17], Stacksize::_16, Programsize::Size(255));
+            let mut x = a.clone();
+            let mut y = a.clone();
+            for _ in 0..100 {
+                x.raw_mut().trigger_clock_edge();
+                y.raw_mut().trigger_clock_edge();
+            }
+            x == y
+        })
+        .unwrap_or(false),
+    );
     ctx.assume("Stacksize::NotSet is not one of the five sizes and is never installed by Machine::load; an assembly-mode key clock is bounded here because its non-termination on undefined opcodes is C11's known finding");
     ctx.finish();
 }
